@@ -169,7 +169,9 @@ def native_equiv(a, b):
     import enum
 
     from dissect.cstruct.types.structure import Structure
+    from pyvc.models import _unproxy
 
+    a, b = _unproxy(a), _unproxy(b)
     if isinstance(a, Structure) or isinstance(b, Structure):
         if not (isinstance(a, Structure) and isinstance(b, Structure)):
             return False
@@ -347,6 +349,9 @@ class Pipeline(T2Case):
         end = s.pos
         ctx.cover("parsed")
         consumed = _norm(zint(end) - zint(p))
+        if T.size is not None and (self.props & {"C02", "C04"}) and not self.want("C08"):
+            # size agreement is stated for complete inputs (a union may be parsed from an input that lacks only tail padding)
+            ctx.assume(zint(p) + T.size <= D.length())
         reads = [e for e in s.log if e[0] == "read"]
         if self.want("C08"):
             bad = [e for e in reads if e[4] not in PROBE_FUNCS and _short(e)]
@@ -822,3 +827,44 @@ def _count(v, kind):
 
 def make_arrsem(prog_json):
     return ArraySemantics(prog_json)
+
+
+class UnionCoherence(T2Case):
+    """C11: a fixed-size union consumes exactly its size; every member equals the parse of its own type from the union's
+    bytes (at the member's offset, i.e. 0)."""
+
+    kind = "C11union"
+    functions = ["dissect/cstruct/types/structure.py:UnionMetaType._read", "dissect/cstruct/types/structure.py:UnionMetaType._read_fields",
+                 "dissect/cstruct/types/structure.py:Union._update", "dissect/cstruct/types/structure.py:Union._proxify"]
+
+    def body(self, ctx):
+        if not self.load_or_reject(ctx):
+            return
+        T = self.cls(False)
+        D, p = self.new_input(ctx)
+        it = self.interp(ctx)
+        s = SymStream(ctx, D, p, name="in")
+        o = outcome(it, T._read, [s])
+        L = D.length()
+        if o[0] == "raise":
+            ctx.prove("refuses-only-short-input", _norm(z3.Not(zint(p) + T.size <= zint(L))), info=o[1].__name__)
+            return
+        ctx.cover("parsed")
+        v = o[1]
+        ctx.prove("consumes-exactly-len(T)", z3.Implies(zint(p) + T.size <= zint(L), zbool_(ctx.eq(s.pos, _norm(zint(p) + T.size)))))
+        seg = D.items[0]
+        buf = SBytes([seg.at(_norm(zint(p) + i)) for i in range(T.size)])
+        for f in T.__fields__:
+            sub = SymStream(ctx, buf, f.offset or 0, name="m")
+            try:
+                want = it.call(f.type._read, [sub])
+            except PyRaise as e:
+                ctx.prove(f"member-{f._name}/parses-from-union-bytes", False, info=e.cls.__name__)
+                continue
+            got = getattr(v, f._name)
+            got = getattr(got, "__target__", got)
+            ctx.prove(f"member-{f._name}/equals-parse-of-its-type-from-the-union-bytes", deep_eq(it, got, want))
+
+
+def make_union_coh(prog_json):
+    return UnionCoherence(prog_json)
